@@ -307,7 +307,7 @@ fn alloc_failure_traces(seed: u64, tier: &str) -> Vec<Trace> {
     let mut out = Vec::new();
     // length indices into LENS: 0..=8 dense, then sparse
     let lens: Vec<u32> = if tier == "thorough" { vec![0, 1, 2, 3, 5, 8, 13, 16, 19, 21] } else { vec![0, 1, 3, 8, 16] };
-    let elems = [ElemKind::Tr, ElemKind::Zt, ElemKind::Pl, ElemKind::Al];
+    let elems = [ElemKind::Tr, ElemKind::Zt, ElemKind::Pl, ElemKind::Al, ElemKind::Zp];
     let mut push = |elem: ElemKind, ops: Vec<Op>| {
         out.push(Trace { prop: Prop::C16, elem, seed: 0, ops });
     };
